@@ -177,6 +177,7 @@ def check(run: Run) -> None:
     _u7_purity(run)
     _u5(run)
     _u6(run)
+    _u8_prefixes(run)
 
 
 def _u5(run: Run) -> None:
@@ -257,6 +258,21 @@ def _u5(run: Run) -> None:
             return super().hook_call(n, env, fns)
 
     c = _var("c")
+    # absolute zero and below first (concrete values: a validation such as `if value <= 0: raise` decides them, while it cannot be followed for a symbol): the helpers are
+    # mutual inverses there too - to_kelvin(Celsius(-273.15)) is 0, so from_kelvin(0) is -273.15 degrees
+    for kelvin in (_num(0), _num(_Fr(-5, 2))):
+        run.ob("U5", f"from_kelvin:{kelvin!r} K")
+        rd = R()
+        try:
+            got = rd.call("from_kelvin", [kelvin])
+        except Raised as r_:
+            got = r_
+        val = got.attrs.get("value") if isinstance(got, Obj) and got.cls == "Celsius" else None
+        if not (isinstance(val, (_T, int)) and _same(val, _op("sub", kelvin, OFFSET))):
+            run.violate("U5", f"{CEL}:from_kelvin:at-and-below-zero", cm, cm.tree,
+                        f"from_kelvin({kelvin!r}) {'raises ' + got.exc if isinstance(got, Raised) else 'gives ' + repr(val)}; expected {kelvin!r} - 273.15: to_kelvin(Celsius(-273.15)) is exactly 0, "
+                        f"so a helper that refuses (or changes) 0 K is not the inverse of to_kelvin")
+            break
     # to_kelvin / from_kelvin
     for name, arg, want in (("to_kelvin", lambda: Obj("Celsius", {"value": c}, "arg"), _op("add", c, OFFSET)), ("from_kelvin", lambda: c, _op("sub", c, OFFSET))):
         run.ob("U5", name)
@@ -388,6 +404,48 @@ def _u6(run: Run) -> None:
         elif not _same(got, want):
             run.violate("U6", f"{CONV}:evaluate_expression:substitution", cvm, cvm.tree,
                         f"evaluate_expression does not replace every quantity atom q by convert_to_si(q) (possibly evalf'd) and every prefix by its scale factor: got {got!r}")
+
+
+SI_PREFIXES = {"yotta": 24, "zetta": 21, "exa": 18, "peta": 15, "tera": 12, "giga": 9, "mega": 6, "kilo": 3, "hecto": 2, "deca": 1, "deci": -1, "centi": -2, "milli": -3,
+               "micro": -6, "nano": -9, "pico": -12, "femto": -15, "atto": -18, "zepto": -21, "yocto": -24, "ronna": 27, "quetta": 30, "ronto": -27, "quecto": -30}
+
+
+def _u8_prefixes(run: Run) -> None:
+    """U8: the library's own table of SI prefixes (core/symbols/prefixes.py) is a finite table: every entry is folded and compared with the SI power of ten"""
+    run.rule("U8", "every entry of symplyphysics.prefixes is the SI power of ten of its name (deca = 10, deci = 1/10, ...)")
+    PM = "symplyphysics.core.symbols.prefixes"
+    if PM not in run.src.mods:
+        return
+    m = run.src.need(PM)
+    tbl = next((st for st in m.tree.body if isinstance(st, ast.Assign) and any(isinstance(t, ast.Name) and t.id == "prefixes" for t in st.targets)), None)
+    if tbl is None or not (isinstance(tbl.value, ast.Call) and dotted(tbl.value.func) == "Prefixes" and not tbl.value.args and all(k.arg for k in tbl.value.keywords)):
+        raise AnalysisError("C07/U8: symplyphysics.core.symbols.prefixes.prefixes is not a literal table Prefixes(name=value, ...): its entries are not folded, no verdict on them")
+
+    def fold(e):
+        from fractions import Fraction as _Fr
+        if isinstance(e, ast.Constant) and isinstance(e.value, (int, float)) and not isinstance(e.value, bool):
+            return _Fr(str(e.value))
+        if isinstance(e, ast.UnaryOp) and isinstance(e.op, ast.USub):
+            return -fold(e.operand)
+        if isinstance(e, ast.BinOp) and isinstance(e.op, (ast.Pow, ast.Mult, ast.Div)):
+            l_, r_ = fold(e.left), fold(e.right)
+            if isinstance(e.op, ast.Pow):
+                if r_.denominator != 1:
+                    raise AnalysisError("C07/U8: fractional power in the prefix table")
+                return l_ ** int(r_)
+            return l_ * r_ if isinstance(e.op, ast.Mult) else l_ / r_
+        if isinstance(e, ast.Call) and (dotted(e.func) or "").split(".")[-1] in ("Rational", "Fraction") and len(e.args) == 2:
+            return fold(e.args[0]) / fold(e.args[1])
+        raise AnalysisError(f"C07/U8: entry `{norm(e, 40)}` of the prefix table is not a literal power of ten")
+    from fractions import Fraction as _Fr2
+    for k in tbl.value.keywords:
+        run.ob("U8", k.arg)
+        if k.arg not in SI_PREFIXES:
+            raise AnalysisError(f"C07/U8: prefix {k.arg} is not in the checker's SI table")
+        v = fold(k.value)
+        if v != _Fr2(10) ** SI_PREFIXES[k.arg]:
+            run.violate("U8", f"{PM}:{k.arg}", m, k.value, f"prefixes.{k.arg} is {v}, the SI prefix {k.arg} is 10**{SI_PREFIXES[k.arg]}: every conversion to or from a {k.arg}-unit is off by that factor")
+    run.floor("U8", len(tbl.value.keywords), 20, "entries of the prefix table")
 
 
 def _mentions(t, name: str) -> bool:
